@@ -266,6 +266,10 @@ class C13(Prop):
                                 key=key, detail={"command": cmd, "result": l[:400], "files": [o_ for o_ in case["ops"] if o_.startswith("file ")][:6]})
             if cls in ("notool", "noexec") and first is None and cls == "notool":
                 first = Failure("monitor", "tool binary %s missing" % tool, key="tools-build")
+        if first is None and case.get("expect_ok"):
+            for op, l in zip(case["ops"], out):
+                if op.startswith("run ") and " class=ok " not in l:
+                    first = Failure("monitor", "%s: expected exit status 0 (help/version), got %s" % (case["name"], l[:160]))
         if first is None and case.get("ref"):
             first = G.ref_monitor(ctx, case, out)
         return first
